@@ -73,6 +73,42 @@ func (m *StreamModel) Combine(o *StreamModel) {
 	m.A.Add(m.A, o.A)
 }
 
+// MeanSD gives the mean and the sample standard deviation of the values as
+// float64 (0, 0 below two values), from the 400-bit running sums. It is for
+// classifying a case (how far apart are the two sides of a merge), not for
+// judging.
+func (m *StreamModel) MeanSD() (mean, sd float64) {
+	n := len(m.Vals)
+	if n == 0 {
+		return 0, 0
+	}
+	bn := sfi(n)
+	mean, _ = sfl().Quo(m.S, bn).Float64()
+	if n < 2 {
+		return mean, 0
+	}
+	m2 := sfl().Sub(m.Q, sfl().Quo(sfl().Mul(m.S, m.S), bn))
+	// constant data: what is left is the rounding of the quotient
+	if m2.Sign() <= 0 || m2.Cmp(sfl().SetMantExp(m.Q, -300)) < 0 {
+		return mean, 0
+	}
+	v, _ := m2.Quo(m2, sfi(n-1)).Float64()
+	return mean, math.Sqrt(v)
+}
+
+// StreamTailRun is the length of the run of equal values that ends the list.
+func StreamTailRun(vals []float64) int {
+	n := len(vals)
+	if n == 0 {
+		return 0
+	}
+	r := 1
+	for r < n && vals[n-1-r] == vals[n-1] {
+		r++
+	}
+	return r
+}
+
 // StreamRef holds the batch statistics of a list of values.
 type StreamRef struct {
 	N        int
